@@ -23,6 +23,8 @@ type cirFlow struct {
 	defPt     CFGPoint
 	caseOf    map[ast.Expr]bool
 	Undecided bool // a condition on the variable could not be resolved
+	// Extra resolves further branch conditions (e.g. a flag variable) for the current situation.
+	Extra func(cond ast.Expr) (truth, decided bool)
 }
 
 // cirDefs lists the assignments in body whose right-hand side is one call and that bind a
@@ -110,6 +112,11 @@ func (f *cirFlow) edgeOK(v constant.Value) func(b *cfg.Block, succ int) bool {
 			return true
 		}
 		truth, decided := false, false
+		if f.Extra != nil {
+			if t, ok := f.Extra(last); ok {
+				return (succ == 0) == t
+			}
+		}
 		if f.caseOf[last] {
 			if cv := f.constVal(last); cv != nil {
 				truth, decided = constant.Compare(v, token.EQL, cv), true
